@@ -1273,7 +1273,7 @@ func ruleNumberWriteSiblings(c *Ctx, r *Report) {
 		r.undecided(rule, "anchor", "-", "locate letterDigit and graphic", "not found")
 		return
 	}
-	fromLeft := func(v ssa.Value) bool {
+	fromSide := func(v ssa.Value, side string) bool {
 		hit := false
 		seen := map[ssa.Value]bool{}
 		var walk func(x ssa.Value, d int)
@@ -1284,7 +1284,7 @@ func ruleNumberWriteSiblings(c *Ctx, r *Report) {
 			seen[x] = true
 			switch y := x.(type) {
 			case *ssa.FieldAddr:
-				if fieldName(y) == "left" {
+				if fieldName(y) == side {
 					hit = true
 				}
 				walk(y.X, d+1)
@@ -1305,6 +1305,7 @@ func ruleNumberWriteSiblings(c *Ctx, r *Report) {
 		walk(v, 0)
 		return hit
 	}
+	fromLeft := func(v ssa.Value) bool { return fromSide(v, "left") }
 	for _, typ := range []string{"Integer", "Float"} {
 		fn := c.method(typ, "WriteTerm")
 		if fn == nil {
@@ -1313,6 +1314,8 @@ func ruleNumberWriteSiblings(c *Ctx, r *Report) {
 		}
 		recv := ssa.Value(fn.Params[0])
 		hasLD, hasGR, hasSignbit := false, false, false
+		hasRightLD := false
+		fromRight := func(v ssa.Value) bool { return fromSide(v, "right") }
 		var strict ssa.Instruction
 		eachInstr(fn, func(in ssa.Instruction) {
 			switch x := in.(type) {
@@ -1323,6 +1326,9 @@ func ruleNumberWriteSiblings(c *Ctx, r *Report) {
 				}
 				if callee == gr && len(x.Call.Args) == 1 && fromLeft(x.Call.Args[0]) {
 					hasGR = true
+				}
+				if callee == ld && len(x.Call.Args) == 1 && !fromLeft(x.Call.Args[0]) && fromRight(x.Call.Args[0]) {
+					hasRightLD = true
 				}
 				if callee != nil && callee.Pkg != nil && callee.Pkg.Pkg.Path() == "math" && callee.Name() == "Signbit" {
 					hasSignbit = true
@@ -1351,6 +1357,13 @@ func ruleNumberWriteSiblings(c *Ctx, r *Report) {
 			r.ok(rule, key+"/left-symbolic", c.Pos(fn.Pos()), "a blank separates a negative number from a symbolic operator on its left", "graphic(left.name) is consulted", false)
 		} else {
 			r.bad(rule, key+"/left-symbolic", c.Pos(fn.Pos()), "a blank separates a negative number from a symbolic operator on its left", "graphic(left.name) is not consulted here although the sibling does")
+		}
+		// (added with fix F50) ... and from an alphanumeric operator on its right: 1 e1 x, 1.0 e1 x - the operator
+		// must not read as a radix prefix or as the exponent
+		if hasRightLD {
+			r.ok(rule, key+"/right-alphanumeric", c.Pos(fn.Pos()), "a blank separates the number from an alphanumeric operator on its right", "letterDigit(right.name) is consulted", false)
+		} else {
+			r.bad(rule, key+"/right-alphanumeric", c.Pos(fn.Pos()), "a blank separates the number from an alphanumeric operator on its right", "letterDigit(right.name) is not consulted here although the sibling does: with op(700, xfx, e1), e1(1.0, x) is written 1.0e1 x and reads as 10.0 followed by x")
 		}
 		switch {
 		case strict != nil:
